@@ -37,6 +37,8 @@ def _log_read(which):
         L.set('g' + which, L._st.lst(L.result.v) if hasattr(L.result, 'v') else L.result)
         L.set('g' + which + '_file', L.callargs[0].t)
         L.set('n' + which, L['n' + which] + 1)
+        inside = L.note('with_files', ())
+        L.set('g' + which + '_with', inside[-1] if inside else z3.Const('g_nofile', Ref))
         ids = L.callargs[1]
         if not isinstance(ids, VOpt):
             raise TypeError("id filter argument of an unexpected shape")          # contract no longer fits the code -> left-subset
@@ -53,9 +55,9 @@ def _read_ensures(C, res):
     a = C.self.args
     return [('each_file_is_read_once', z3.And(Fv.nref == 1, Fv.nqry == 1)),
             ('references_are_read_from_the_reference_file_with_the_reference_id_filter',
-             z3.And(Fv.gref_file == a.referenceFile.ref, Fv.gref_ids_given == z3.Not(a.referenceIds.none),
+             z3.And(Fv.gref_file == a.referenceFile.ref, Fv.gref_with == a.referenceFile.ref, Fv.gref_ids_given == z3.Not(a.referenceIds.none),
                     z3.Implies(z3.Not(a.referenceIds.none), same_list(Fv.gref_ids, a.referenceIds.val)), same_list(me.referenceMaps, Fv.gref))),
-            ('queries_are_read_from_the_query_file_with_the_query_id_filter', z3.And(Fv.gqry_file == a.queryFile.ref, Fv.gqry_ids_given == z3.Not(a.queryIds.none),
+            ('queries_are_read_from_the_query_file_with_the_query_id_filter', z3.And(Fv.gqry_file == a.queryFile.ref, Fv.gqry_with == a.queryFile.ref, Fv.gqry_ids_given == z3.Not(a.queryIds.none),
                                                                                      z3.Implies(z3.Not(a.queryIds.none), same_list(Fv.gqry_ids, a.queryIds.val)))),
             ('one_query_per_molecule_read_in_order', Q.len == R.len),
             ('every_query_is_the_trimmed_molecule_read', forall(k, z3.Implies(rng(0, k, Q.len), z3.And(
@@ -69,13 +71,13 @@ _nref = lambda C: z3.Const('g_nofile', Ref)
 readMaps = FunctionSpec(
     file=F, qualname='Program.__readMaps', params=dict(self=PROG), returns=NONE, ensures=_read_ensures,
     modifies={'self': ['referenceMaps', 'queryMaps']},
-    ghost={'gref': _el, 'gqry': _el, 'gref_file': _nref, 'gqry_file': _nref, 'nref': lambda C: z3.IntVal(0), 'nqry': lambda C: z3.IntVal(0),
+    ghost={'gref': _el, 'gqry': _el, 'gref_file': _nref, 'gqry_file': _nref, 'gref_with': _nref, 'gqry_with': _nref, 'nref': lambda C: z3.IntVal(0), 'nqry': lambda C: z3.IntVal(0),
            'gref_ids_given': lambda C: z3.BoolVal(False), 'gqry_ids_given': lambda C: z3.BoolVal(False),
            'gref_ids': lambda C: C._e.fresh_list(INT, 'gids', n=z3.IntVal(0)), 'gqry_ids': lambda C: C._e.fresh_list(INT, 'gids', n=z3.IntVal(0))},
     ghost_at={'call:readReferences#0': _log_read('ref'), 'call:readQueries#0': _log_read('qry')},
     serves=('C17', 'C10', 'C06'), canary='one_query_per_molecule_read_in_order',
     note="references = what the reader returns for (reference file, -rId); queries = the trimmed image, one for one and in order, of what it returns for "
-         "(query file, -qId); `with <file>:` is executed as its body (ASSUMED: a file's context manager only closes it)")
+         "(query file, -qId), each read inside the `with` block of its OWN file (the block closes that file afterwards); `with <file>:` is executed as its body (ASSUMED: a file's context manager only closes it)")
 
 
 # ------------------------------------------------------------------ Program.run
